@@ -94,6 +94,10 @@ class Canon:
                         self.with_defs.setdefault(it.optional_vars.id, it.context_expr)
         self.single = {k: v for k, v in defs.items() if counts.get(k) == 1 and k not in self.params and k not in self.loopnames
                        and not isinstance(v, (ast.List, ast.Dict, ast.Set, ast.ListComp, ast.DictComp))}
+        # module-level constants read like their value (a private _DEFAULT = "..." / _SUPPORTED = (a, b) introduced by a clean-up)
+        for k, v in getattr(fn, "_pv_module_consts", {}).items():
+            if k not in self.params and counts.get(k, 0) == 0 and k not in self.loopnames and (k.startswith("_") or k.isupper()):
+                self.single.setdefault(k, v)
         # a parameter re-bound exactly once, unconditionally and before any other use, by an expression of itself (order = parse_one_d(order)):
         # later reads mean that expression of the ARGUMENT, whatever name it is bound to (parsed = parse_one_d(order) reads the same)
         self.rebound_params: Dict[str, ast.expr] = {}
@@ -320,6 +324,10 @@ class Canon:
             def visit_Call(self, n):
                 n = self.generic_visit(n)
                 fname = dotted(n.func) or ""
+                # parse_one_d(x) is x as a 1-D array: the same operand for the purpose of naming a guard (that the normalising call is made is
+                # a reviewed obligation of its own, GD-call)
+                if fname.split(".")[-1] == "parse_one_d" and len(n.args) == 1 and not n.keywords:
+                    return n.args[0]
                 # np.any / np.all as functions:  (A != B).any() ~ np.any(A != B)
                 if isinstance(n.func, ast.Attribute) and n.func.attr in ("any", "all") and not n.args and not n.keywords \
                         and isinstance(n.func.value, (ast.Compare, ast.BinOp, ast.BoolOp, ast.UnaryOp)):
@@ -462,17 +470,31 @@ def atoms_of(test: ast.expr, truth: bool, c: Canon) -> List[FrozenSet[Atom]]:
                     ast.BoolOp(op=ast.And(), values=[ife.test, cmp_with(ife.body)]),
                     ast.BoolOp(op=ast.And(), values=[ast.UnaryOp(op=ast.Not(), operand=ife.test), cmp_with(ife.orelse)])])
                 return atoms_of(expanded, truth, c)
+        # names of literal constants (module-level _KIND = "random") compare like the literal
+        def lit(e):
+            if isinstance(e, ast.Name) and isinstance(c.single.get(e.id), ast.Constant) and e.id not in c.loopvars:
+                return c.single[e.id]
+            return e
+        if isinstance(test.left, ast.Name) or any(isinstance(x, ast.Name) for x in test.comparators):
+            test = ast.Compare(left=lit(test.left), ops=test.ops, comparators=[lit(x) for x in test.comparators])
         folded = _fold_constant_compare(test)
         if folded is not None:
             return [frozenset({f"const({folded == truth})"})] if (folded == truth) else []
     # a conditional expression anywhere inside the test (directly, or through a local that is defined by one): two cases
     split = _split_conditional(test, c)
     if split is not None:
+        # (cond and T[first arm]) or (not cond and T[second arm]), for T and for not-T alike: the two cases stay disjoint
         cond, if_true, if_false = split
-        expanded = ast.BoolOp(op=ast.Or(), values=[
-            ast.BoolOp(op=ast.And(), values=[cond, if_true]),
-            ast.BoolOp(op=ast.And(), values=[ast.UnaryOp(op=ast.Not(), operand=cond), if_false])])
-        return atoms_of(expanded, truth, c)
+        out = []
+        for cc in atoms_of(cond, True, c):
+            for tt in atoms_of(if_true, truth, c):
+                if _consistent(cc | tt):
+                    out.append(cc | tt)
+        for cc in atoms_of(cond, False, c):
+            for tt in atoms_of(if_false, truth, c):
+                if _consistent(cc | tt):
+                    out.append(cc | tt)
+        return out[:64]
     # x in (A, B)  ~  x == A or x == B ;  x not in (A, B)  ~  x != A and x != B      (short literal collections)
     coll = test.comparators[0] if isinstance(test, ast.Compare) and len(test.ops) == 1 else None
     if isinstance(coll, ast.Name) and coll.id in c.single and isinstance(c.single[coll.id], (ast.Tuple, ast.List, ast.Set)) and coll.id not in c.loopvars:
